@@ -130,19 +130,45 @@ def strip_comments(src):
     return "".join(out)
 
 
-def hygiene():
-    """Forbidden constructs outside comments anywhere in the Lean sources.  Returns list of hits."""
+def module_path(mod):
+    return os.path.join(LEAN, *mod.split(".")) + ".lean"
+
+
+def import_closure(roots):
+    """All project-local source files reachable through `import` from the given modules/files."""
+    seen, todo = {}, list(roots)
+    while todo:
+        m = todo.pop()
+        path = m if m.endswith(".lean") else module_path(m)
+        if path in seen or not os.path.exists(path):
+            continue
+        src = open(path).read()
+        seen[path] = src
+        for imp in re.findall(r"^\s*(?:public\s+)?import\s+(\S+)", src, re.M):
+            if imp.startswith("LunaVerif") or imp.startswith("Driver"):
+                todo.append(imp)
+    return seen
+
+
+def hygiene(roots=None):
+    """Forbidden constructs outside comments in the Lean sources the given modules depend on
+    (everything under lean/ when no roots are given).  Returns the list of hits."""
     hits = []
-    for root, dirs, files in os.walk(LEAN):
-        dirs[:] = [d for d in dirs if d != ".lake"]
-        for fn in files:
-            if not fn.endswith(".lean"):
-                continue
-            p = os.path.join(root, fn)
-            code = strip_comments(open(p).read())
-            for ln, line in enumerate(code.splitlines(), 1):
-                if FORBIDDEN.search(line):
-                    hits.append("%s:%d: %s" % (os.path.relpath(p, VERIF), ln, line.strip()))
+    if roots is None:
+        files = {}
+        for root, dirs, fs in os.walk(LEAN):
+            dirs[:] = [d for d in dirs if d != ".lake"]
+            for fn in fs:
+                if fn.endswith(".lean"):
+                    p = os.path.join(root, fn)
+                    files[p] = open(p).read()
+    else:
+        files = import_closure(roots)
+    for p, src in sorted(files.items()):
+        code = strip_comments(src)
+        for ln, line in enumerate(code.splitlines(), 1):
+            if FORBIDDEN.search(line):
+                hits.append("%s:%d: %s" % (os.path.relpath(p, VERIF), ln, line.strip()))
     return hits
 
 
